@@ -1805,6 +1805,43 @@ def lobpcg_initial_space(mk, case):
 # ---------------------------------------------------------------------- small wrappers around the solvers
 
 @obligation(PROP)
+def lazy_scaling_algebra(mk):
+    """third round: a Lazy (unconstructed) operator handed to the solvers denotes (product of all its scalings) * fn(): every
+    history of <= 3 scalings drawn from {constructor factor=, L *= x, L * x, x * L} with symbolic complex factors gives that
+    matrix; the out-of-place forms return a new object and leave the receiver's denotation unchanged"""
+    import itertools
+    mk.encodes(qbl.Lazy.__init__, qbl.Lazy.__imul__, qbl.Lazy.__mul__, qbl.Lazy.__rmul__, qbl.Lazy.__call__)
+    M = mk.array("M", (2, 2), "cplx")
+    fs = [mk.scalar(f"x{i}", "cplx") for i in range(3)]
+    if not mk.sym:
+        fs = [complex(f) for f in fs]
+
+    def fn(**kw):
+        return np.array(M, dtype=M.dtype, copy=True)
+
+    for first in ("plain", "factor="):
+        for word in itertools.chain.from_iterable(itertools.product(("imul", "mul", "rmul"), repeat=n) for n in (1, 2, 3)):
+            L = qbl.Lazy(fn, shape=(2, 2)) if first == "plain" else qbl.Lazy(fn, shape=(2, 2), factor=fs[2])
+            want = 1 if first == "plain" else fs[2]
+            lab = f"Lazy({first}) " + " ".join(word)
+            for k, op in enumerate(word):
+                x = fs[k]
+                before_want = want
+                if op == "imul":
+                    L0 = L
+                    L *= x
+                    mk.same(f"{lab}: step {k} *= keeps the object", L is L0, True)
+                else:
+                    old = L
+                    L = (L * x) if op == "mul" else (x * L)
+                    mk.same(f"{lab}: step {k} returns a new object", L is not old, True)
+                    mk.eq(f"{lab}: step {k} leaves the receiver's matrix unchanged", old(), M * before_want)
+                want = want * x
+                mk.eq(f"{lab}: after step {k} the operator denotes (product of factors) * M", L(), M * want)
+            mk.eq(f"{lab}: a second construction gives the same matrix", L(), M * want)
+
+
+@obligation(PROP)
 def wrapper_return_conventions(mk):
     """return / in-place conventions of thin wrappers: rsvd(compute_uv=False) returns only the values in every mode,
     Lazy *= x keeps the object, IdentityLinearOperator.H acts with the conjugated factor"""
